@@ -1245,7 +1245,21 @@ func isWrapOf(v ssa.Value, srcs map[ssa.Value]bool) bool {
 func definitelyNonNilError(v ssa.Value) bool {
 	switch x := v.(type) {
 	case *ssa.Call:
-		return flow.IsCallTo(x, "fmt", "", "Errorf") || flow.IsCallTo(x, "errors", "", "New")
+		if flow.IsCallTo(x, "fmt", "", "Errorf") || flow.IsCallTo(x, "errors", "", "New") {
+			return true
+		}
+		// an error constructor of the module: every value it returns is itself a constructed error
+		if g := flow.StaticCallee(x); g != nil && g.Blocks != nil && g.Signature.Results().Len() == 1 && isErrorType(g.Signature.Results().At(0).Type()) && len(flow.Loops(g)) == 0 {
+			rvs := flow.ReturnValues(g, 0)
+			for _, rv := range rvs {
+				inner, isCall := rv.(*ssa.Call)
+				_, isMI := rv.(*ssa.MakeInterface)
+				if !(isMI || (isCall && (flow.IsCallTo(inner, "fmt", "", "Errorf") || flow.IsCallTo(inner, "errors", "", "New")))) {
+					return false
+				}
+			}
+			return len(rvs) > 0
+		}
 	case *ssa.MakeInterface:
 		return true
 	}
